@@ -7,13 +7,13 @@ META = {
     "technique": "Coq proof (literal list-ascii model of path.cc/stringutility.hh refines the component stack-machine spec, "
                  "all strings) + extracted-model vs C++ differential correspondence, exhaustive over a 4-letter path alphabet, "
                  "with the extracted spec as oracle on the impl's own output",
-    "text": "Theorems in coq/Properties_C18.v: processPath of every string is the rendering of its denotation (hence normal form, "
-            "same location, idempotent, never escaping the root, terminating within fuel |p|+2); prettyPath / "
-            "pathIndicatesDirectory / concatPaths equal their documented tables as functions of the denotation; "
-            "hasPrefix/hasSuffix/formatString equal their plain definitions for every length.  The model is tied to "
-            "dune/common/path.cc and stringutility.hh on every run by running the extracted model and the C++ functions on "
-            "identical inputs (all strings over {/,.,a,b} up to length 7/8, all pairs up to length 4/5, seeded long paths, "
-            "format lengths around the buffer size re-read from the source).",
+    "text": "Theorems in coq/Properties_C18.v, for ALL strings: C18_bridge (processPath p = rendering of the denotation of p; the literal "
+            "index-based /../ loop is proved equal to the component stack machine), hence C18_normal_form, C18_denote, C18_idempotent, "
+            "C18_abs_never_escapes, C18_terminates (fuel |p|+2); C18_pretty, C18_isdir and C18_concat (documented tables + denotational meaning); "
+            "C18_prefix_suffix; C18_format (every expansion length, buffer size re-read from the source).  Partial (bound in the statement): "
+            "C18_relative_inverse_partial (all pairs up to length 4).  The model is tied to dune/common/path.cc and stringutility.hh on every run "
+            "by running the extracted model and the C++ functions on identical inputs (all strings over {/,.,a,b} up to length 7/8, all pairs up "
+            "to length 4/5, seeded long paths with arbitrary bytes, format lengths around the buffer size) and judging the C++ output with the extracted spec.",
     "note": "Trusted: Coq kernel, extraction, OCaml driver, C++ harness, g++/libstdc++ std::string, snprintf "
             "(contract: returns the full expansion length and stores the first n-1 characters).",
     "design_ref": "DESIGN.md section 4 C18",
@@ -236,7 +236,7 @@ def run(ctx):
     so = V.run_cases(ctx, [impl_san], [cases[i] for i in sub], tag="san", timeout=300 if ctx.quick else 1200,
                      env={"ASAN_OPTIONS": "detect_leaks=0"})
     ndis = nviol = 0
-    ops, verdicts = {}, {}
+    ops, verdicts, best, corr = {}, {}, {}, []
     nt = set()
     if len(io) != len(cases) or len(mo) != len(cases):
         ctx.violation("corr:C18/length", {"broken": "corr:C18/streams", "detail": "cases=%d impl=%d model=%d" % (len(cases), len(io), len(mo))},
@@ -249,17 +249,22 @@ def run(ctx):
             nviol += 1
             key = verdict.split(":")[0]
             verdicts[key] = verdicts.get(key, 0) + 1
-            if nviol <= 300:
-                ctx.violation(sig_of(c, verdict), {"case": c, "args": [unesc(x) for x in c.split()[1:] if x.startswith(":")],
-                                                   "impl": a, "model": mm, "oracle": verdict,
-                                                   "replay_cmd": "bin/check C18 --replay <this file>"})
+            sig = sig_of(c, verdict)
+            # cheap minimisation: per signature keep the shortest failing case of the whole batch
+            if sig not in best or len(c) < len(best[sig]["case"]):
+                best[sig] = {"case": c, "args": [unesc(x) for x in c.split()[1:] if x.startswith(":")],
+                             "impl": a, "model": mm, "oracle": verdict, "replay_cmd": "bin/check C18 --replay <this file>"}
         elif a != mm:
             ndis += 1
             if ndis <= 50:
-                ctx.violation("corr:C18/%s" % op, {"broken": "corr:C18/%s" % op, "case": c, "impl": a, "model": mm,
-                                                   "oracle": "accepts impl output"}, found_input=False)
+                corr.append(("corr:C18/%s" % op, {"broken": "corr:C18/%s" % op, "case": c, "impl": a, "model": mm,
+                                                   "oracle": "accepts impl output"}))
         if mm.startswith("OUTOFFUEL") or mm.startswith("MODEL-ERROR") or mm == "UNKNOWN-OP":
             ctx.violation("corr:C18/model:%s" % mm.split()[0], {"broken": "model run", "case": c, "model": mm}, found_input=False)
+    for sig in sorted(best):
+        ctx.violation(sig, best[sig])
+    for sig, rep in corr:
+        ctx.violation(sig, rep, found_input=False)
     for j, i in enumerate(sub):
         if j < len(so) and so[j] != io[i]:
             ctx.violation("C18:%s:sanitizer" % cases[i].split()[0], {"case": cases[i], "impl": io[i], "impl_sanitized_build": so[j],
